@@ -361,7 +361,9 @@ def rule_r9(prog, res):
                 pairs.append((st, _or_roots(f, st["rv"]["ops"][0], names)))
     got = sorted(["+".join(sorted(x)) if x else "?" for _, x in pairs])
     want = sorted(["curr_match+prev_match", "curr_match+prev_match", "prev_match", "curr_match"])
-    r9.check(got == want, {"fn": f.id, "matched_flag_per_arm": got}, "C01.R9:flag",
+    # the fallback arm may apply the fallback rule on several branches (e.g. with / without a spill to keep): each takes this rule's flag
+    ok9 = got.count("curr_match+prev_match") == 2 and got.count("prev_match") == 1 and got.count("curr_match") >= 1 and len(got) == 3 + got.count("curr_match")
+    r9.check(ok9, {"fn": f.id, "matched_flag_per_arm": got}, "C01.R9:flag",
              "schedule_at updates the 'some rule matched this day' flag with %s (expected: `curr || prev` for normal and additional rules, prev / curr in the two fallback cases): a day covered by an earlier rule can be taken over by a fallback rule" % got, lib.where_of(f))
     r9.floor(1)
 
@@ -473,6 +475,56 @@ def rule_r11(prog, res):
                 ok = ka is not None and kb is not None and (ka, kb) in adds
                 r11.check(ok, {"fn": f.id.split("::")[-1], "or_of": [a[-60:], b[-60:]], "both_present_overlaid_by": "Schedule::addition"}, "C01.R11:%s:%s" % (f.id.split("::")[-1], b[-80:]),
                           "%s merges two optional schedules of a day with `%s` and no sibling branch overlays them when both exist: the second one (a spill from yesterday, or this rule's own contribution) is dropped whenever the first exists - e.g. `Su 10:00-12:00; Sa 22:00-02:00` is closed on Sunday 01:00" % (f.id, cal.get("name")), lib.where_of(f, t))
+    # (b) in the fold over the rules of a day, `this rule's schedule alone` (what earlier rules gave is dropped,
+    #     spills from yesterday included) is only chosen where this rule applies today or an earlier rule did
+    sa = roots[0]
+    prev_match = [l for l, loc in enumerate(sa.locals) if loc["ty"] == "bool" and len(sa.defs_of(l)) == 2
+                  and any(n["k"] == "assign" and n["rv"]["k"] == "use" and n["rv"]["op"].get("k") == "const" and n["rv"]["op"].get("int") == 0 for _, n in sa.defs_of(l))
+                  and any(n["k"] == "assign" and n["rv"]["k"] == "use" and lib.operand_place(n["rv"]["op"]) is not None for _, n in sa.defs_of(l))]
+
+    def root_local(op):
+        pl = lib.operand_place(op)
+        seen = set()
+        while pl is not None and not pl["p"] and pl["l"] not in seen:
+            seen.add(pl["l"])
+            if pl["l"] in prev_match:
+                return pl["l"]
+            defs = sa.defs_of(pl["l"])
+            if len(defs) != 1 or defs[0][1]["k"] != "assign" or defs[0][1]["rv"]["k"] != "use":
+                break
+            pl = lib.operand_place(defs[0][1]["rv"]["op"])
+        return pl["l"] if pl is not None and not pl["p"] else None
+
+    n_alone = 0
+    for bb, b in sa.live_blocks():
+        for st in b["stmts"]:
+            if not (st["k"] == "assign" and st["rv"]["k"] == "agg" and st["rv"].get("ak") == "tuple" and len(st["rv"]["ops"]) == 2):
+                continue
+            tys = [sa.locals[lib.operand_place(o)["l"]]["ty"] if lib.operand_place(o) is not None and not lib.operand_place(o)["p"] else o.get("ty") for o in st["rv"]["ops"]]
+            if tys[0] != "bool" or "Schedule" not in str(tys[1]):
+                continue
+            ev_sh = flow.shape(sa, st["rv"]["ops"][1], depth=3)
+            if not re.fullmatch(r"opening_hours::rule_sequence_schedule_at\(.*\)", ev_sh) or ev_sh.startswith("alt("):
+                continue
+            n_alone += 1
+            justified = None
+            cur = sa.blocks[bb]["idom"]
+            while cur is not None and justified is None:
+                tt = sa.blocks[cur]["term"]
+                if tt["k"] == "switch":
+                    succs = set(sa.succs(cur))
+                    doms = [x for x in succs if sa.dominates(x, bb)]
+                    if len(doms) == 1 and len(succs) > 1:
+                        zero = dict(tt["targets"]).get(0)
+                        true_edge = doms[0] != zero
+                        sh = flow.shape(sa, tt["op"], depth=3)
+                        if true_edge and "::filter(" in sh and "day_selector" in sh and not sh.startswith("alt("):
+                            justified = "this rule applies today"
+                        elif true_edge and root_local(tt["op"]) in prev_match:
+                            justified = "an earlier rule applied today"
+                cur = sa.blocks[cur]["idom"]
+            r11.check(justified is not None, {"fn": "schedule_at", "this_rule_alone_chosen_when": justified}, "C01.R11:alone",
+                      "schedule_at lets a rule's own schedule replace what earlier rules gave on a path where neither this rule nor an earlier one applies today: what earlier rules gave can then only be their spill from yesterday, and it is dropped - e.g. `Fr 22:00-02:00 || unknown` is unknown, not open, on Saturday 01:00", lib.where_of(sa, st))
     n_add = sum(1 for fn in roots for fid in prog.with_closures(fn.id) for _, t in prog.fns[fid].calls() if flow.call_name(t).endswith("Schedule::addition"))
     r11.check(n_add >= 2, {"first_wins_merges": n, "overlays": n_add}, "C01.R11:FLOOR", "FLOOR: %d overlays (Schedule::addition) of day schedules found in the day evaluation (expected the rule fold and today/yesterday)" % n_add)
 
